@@ -15,7 +15,7 @@ Definition mem_str (x : string) (l : list string) : bool := existsb (String.eqb 
 
 Definition known_class_state : list (string * gkind) :=
   [("Account.__abandon_properties__", GConstant); ("BaseDataSource.OPEN_AUCTION_BAR_FIELDS", GConstant); ("ExecutionContext.stack", GStack);
-   ("Executor.EVENT_SPLIT_MAP", GConstant); ("FuturePosition.__instrument_types__", GConstant); ("FuturePositionProxy.__instrument_types__", GConstant);
+   ("Executor.EVENT_SPLIT_MAP", GConstant); ("Strategy._EVENT_PHASE", GConstant); ("FuturePosition.__instrument_types__", GConstant); ("FuturePositionProxy.__instrument_types__", GConstant);
    ("Order.order_id_gen", GCounter); ("Position.__instrument_types__", GConstant); ("PositionProxy.__instrument_types__", GConstant);
    ("Trade.trade_id_gen", GCounter)].
 Definition known_module_state : list (string * gkind) :=
